@@ -73,6 +73,9 @@ fn run_case(
         writeln!(out, "I {}", op).unwrap();
         stats.ops += 1;
         let words: Vec<&str> = op.split_whitespace().collect();
+        if exec.flush_before(&words) {
+            out.flush().unwrap();
+        }
         let res = catch_unwind(AssertUnwindSafe(|| exec.step(&words)));
         match res {
             Ok(so) => emit(out, so, stats),
